@@ -125,6 +125,8 @@ def record(pa, rng, count, rep):
                 given = dict(count=[rng.choice([0.0, 1.5, 3.0]), rng.choice([0.0, 1.0, 2.5])],
                              gap=[rng.choice([0.0, 2.0, -1.0]), rng.choice([0.5, 3.0])],
                              dur=[rng.choice([0.0, 4.0, 1.0]), rng.choice([0.5, 2.0])])
+                if rng.random() < 0.15:      # a duration law with real mass below the segment precision: the redraw loop matters
+                    given["dur"] = [0.0, rng.choice([1e-6, 2e-6, 5e-7])]
                 w = None
                 if rng.random() < 0.6:
                     raw = [rng.randint(1, 5) for _ in cats]
@@ -145,7 +147,18 @@ def record(pa, rng, count, rep):
                 meta.update(reference={a: [[u.segment.start, u.segment.end, u.annotation] for u in ref[a]] for a in anns},
                             ground_truth=gta)
             np.random.seed(rng.randint(0, 2 ** 31 - 1))
-            for _ in range(rng.randint(1, 3)):
+            for round_ in range(rng.randint(1, 3)):
+                if round_ > 0 and not custom and rng.random() < 0.5:
+                    # the same sampler re-initialised on the same (now modified) reference object: statistics must be re-measured
+                    from pyannote.core import Segment
+                    for _ in range(rng.randint(1, 6)):
+                        a = rng.choice(anns)
+                        s0 = float(rng.randint(0, 60))
+                        ref.add(a, Segment(s0, s0 + float(rng.randint(1, 15))), rng.choice(LABELS))
+                    cats = list(ref.categories)
+                    sampler.init_sampling(ref, gta if gta != anns else None)
+                    meta = dict(meta, reinitialised=True,
+                                reference={a: [[u.segment.start, u.segment.end, u.annotation] for u in ref[a]] for a in anns})
                 probe.log = []
                 try:
                     smp = sampler.sample_from_continuum
